@@ -386,7 +386,7 @@ func init() {
 		Rule: "two sources: (1) every diff a.Diff(b) of the C01 workloads (9 option sets, hostile string payloads) rendered, re-read, re-rendered, compared field by field, colour-stripped, and applied to a so that the re-read diff gives b; " +
 			"(2) hunk sequences constructed from the public DiffElement fields: all well-formed single shapes (path kind x before/after context x 0..3 removes x 0..3 adds x merge/void), all pairs of them, and triples over a reduced shape set (thorough), with plain and hostile payloads; " +
 			"each compared for text identity, hunk identity and identical effect on an 18-document panel; the reader's (state, header) transitions are recorded through hook VerifReadTrace; non-trivial = >=2 hunks or context or multi-value or merge metadata; distinct = distinct (shapes, payload seed) or (a, b, options)",
-		Floors: map[string]int{"sequence_len_2": 20000, "long_string_replacement_renders": 20, "merge_metadata_line": 800, "void_addition": 200, "context_lines": 5000, "multi_value": 5000,
+		Floors: map[string]int{"sequence_len_2": 20000, "long_string_replacement_renders": 20, "mixed_width_string_replacements": 3000, "merge_metadata_line": 800, "void_addition": 200, "context_lines": 5000, "multi_value": 5000,
 			"effect_applies": 5000, "#reader_transitions_observed": 25, "colour_codes_present": 10000, "from_diff_multi_hunk": 5000, "reread_patch_gives_b": 20000, "very_long_line_diffs": 50},
 		Assumptions: []string{
 			"a strict hunk after a merge hunk is not representable (metadata lines are additive and inherited) and is excluded, as the property itself does",
@@ -484,6 +484,49 @@ func init() {
 			if err != nil || !ref.Eq(Plain(P), ref.MustJSON(bText), o.Reading) {
 				c.Violation("the re-read diff (with lines longer than 64 KiB) does not turn a into b", map[string]any{"error": fmt.Sprint(err)})
 			}
+		},
+	})
+	p.Strata = append(p.Strata, mon.Stratum{
+		Name: "single-string-replacements-mixed-width",
+		N:    qt(6000, 400000),
+		Run: func(c *mon.Ctx, i int) {
+			// one string replaced by a related one (common prefix / suffix / interleaving), over an alphabet
+			// of 1-, 2-, 3- and 4-byte runes plus characters JSON escapes: the character-level colouring
+			// must still differ from the plain text by ANSI sequences only
+			r := c.R
+			alpha := []string{"a", "b", " ", "\u00e9", "\u00fc", "\u4e16", "\u754c", "\U0001F600", "\"", "\\", "<", "&", "\n", "\t", "\u2028", "e\u0301"}
+			word := func(n int) string {
+				var b strings.Builder
+				for k := 0; k < n; k++ {
+					b.WriteString(gen.Pick(r, alpha))
+				}
+				return b.String()
+			}
+			pre, mid1, mid2, suf := word(r.Range(0, 5)), word(r.Range(0, 3)), word(r.Range(0, 4)), word(r.Range(0, 5))
+			s1, s2 := pre+mid1+suf, pre+mid2+suf
+			switch i % 5 {
+			case 1:
+				s2 = pre + mid2 // different tails after a common prefix
+			case 2:
+				s2 = mid2 + suf
+			case 3:
+				s1, s2 = pre+mid1+pre, pre+mid2+pre+suf
+			}
+			if s1 == s2 {
+				s2 += "x"
+			}
+			w := i % 3
+			aText := ref.ToJSON(gen.Wrap([]any{s1, 1.0}, w))
+			bText := ref.ToJSON(gen.Wrap([]any{s2, 1.0}, w))
+			if i%2 == 1 {
+				aText, bText = ref.ToJSON(map[string]any{"s": s1}), ref.ToJSON(map[string]any{"s": s2})
+			}
+			c.Input("a", aText)
+			c.Input("b", bText)
+			c.Feature("mixed_width_string_replacements")
+			c.Nontrivial(joinKey("mw", aText, bText))
+			mk := func() jd.Diff { return ReadJ(aText).Diff(ReadJ(bText)) }
+			c02RoundTrip(c, mk, []string{aText, bText}, nil)
 		},
 	})
 	p.Strata = append(p.Strata, mon.Stratum{
